@@ -16,6 +16,7 @@ import (
 	"bytes"
 	"crypto/sha1"
 	"encoding/base64"
+	"encoding/binary"
 	"encoding/gob"
 	"fmt"
 	"hash"
@@ -149,41 +150,42 @@ func RuleHash(state *core.BuildState, target *core.BuildTarget, runtime, postBui
 
 func ruleHash(state *core.BuildState, target *core.BuildTarget, runtime bool) []byte {
 	h := sha1.New()
-	h.Write([]byte(target.Label.String()))
+	hashString(h, target.Label.String())
 	for _, dep := range target.DeclaredDependencies() {
-		h.Write([]byte(dep.String()))
+		hashString(h, dep.String())
 	}
 	for _, vis := range target.Visibility {
-		h.Write([]byte(vis.String())) // Doesn't strictly affect the output, but best to be safe.
+		hashString(h, vis.String()) // Doesn't strictly affect the output, but best to be safe.
 	}
 	for _, hsh := range target.Hashes {
-		h.Write([]byte(hsh))
+		hashString(h, hsh)
 	}
 	for _, source := range target.AllSources() {
-		h.Write([]byte(source.String()))
+		hashString(h, source.String())
 	}
 	for _, out := range target.DeclaredOutputs() {
-		h.Write([]byte(out))
+		hashString(h, out)
 	}
 	outs := target.DeclaredNamedOutputs()
 	for _, name := range target.DeclaredOutputNames() {
-		h.Write([]byte(name))
+		hashString(h, name)
+		hashInt(h, len(outs[name]))
 		for _, out := range outs[name] {
-			h.Write([]byte(out))
+			hashString(h, out)
 		}
 	}
 	for _, licence := range target.Licences {
-		h.Write([]byte(licence))
+		hashString(h, licence)
 	}
 
 	for _, output := range target.OptionalOutputs {
-		h.Write([]byte(output))
+		hashString(h, output)
 	}
 	for _, label := range target.Labels {
-		h.Write([]byte(label))
+		hashString(h, label)
 	}
 	for _, secret := range target.Secrets {
-		h.Write([]byte(secret))
+		hashString(h, secret)
 	}
 	hashBool(h, target.IsBinary)
 	hashOptionalBool(h, target.IsSubrepo)
@@ -203,7 +205,7 @@ func ruleHash(state *core.BuildState, target *core.BuildTarget, runtime bool) []
 	hashBool(h, target.SrcListFiles)
 	hashOptionalBool(h, target.ExitOnError)
 	for _, require := range target.Requires {
-		h.Write([]byte(require))
+		hashString(h, require)
 	}
 	// Indeterminate iteration order, yay...
 	provideKeys := make([]string, 0, len(target.Provides))
@@ -213,9 +215,10 @@ func ruleHash(state *core.BuildState, target *core.BuildTarget, runtime bool) []
 	sort.Strings(provideKeys)
 	for _, lang := range provideKeys {
 		vs := target.Provides[lang]
-		h.Write([]byte(lang))
+		hashString(h, lang)
+		hashInt(h, len(vs))
 		for _, l := range vs {
-			h.Write([]byte(l.String()))
+			hashString(h, l.String())
 		}
 	}
 	// We don't need to hash the functions themselves because they get rerun every time -
@@ -226,14 +229,13 @@ func ruleHash(state *core.BuildState, target *core.BuildTarget, runtime bool) []
 	hashBool(h, target.PostBuildFunction != nil)
 	if target.PassEnv != nil {
 		for _, env := range *target.PassEnv {
-			h.Write([]byte(env))
-			h.Write([]byte{'='})
-			h.Write([]byte(os.Getenv(env)))
+			hashString(h, env)
+			hashString(h, os.Getenv(env))
 		}
 	}
 
 	for _, o := range target.OutputDirectories {
-		h.Write([]byte(o))
+		hashString(h, string(o))
 	}
 
 	hashMap(h, target.EntryPoints)
@@ -244,11 +246,11 @@ func ruleHash(state *core.BuildState, target *core.BuildTarget, runtime bool) []
 	// Hash the test and runtime fields
 	if runtime {
 		for _, datum := range target.AllData() {
-			h.Write([]byte(datum.String()))
+			hashString(h, datum.String())
 		}
 		if target.IsTest() {
 			for _, output := range target.Test.Outputs {
-				h.Write([]byte(output))
+				hashString(h, output)
 			}
 			hashOptionalBool(h, target.Test.Sandbox)
 			h.Write([]byte(target.GetTestCommand(state)))
@@ -266,8 +268,23 @@ func hashMap(writer hash.Hash, eps map[string]string) {
 	}
 	sort.Strings(keys)
 	for _, ep := range keys {
-		writer.Write([]byte(ep + "=" + eps[ep]))
+		hashString(writer, ep)
+		hashString(writer, eps[ep])
 	}
+}
+
+// hashString writes a string to the hash preceded by its length, so that the items of a
+// list cannot run into one another (["ab", "c"] must not hash the same as ["a", "bc"]).
+func hashString(writer hash.Hash, s string) {
+	hashInt(writer, len(s))
+	writer.Write([]byte(s))
+}
+
+// hashInt writes a fixed-width integer (e.g. a length or a count) to the hash.
+func hashInt(writer hash.Hash, n int) {
+	var b [8]byte
+	binary.LittleEndian.PutUint64(b[:], uint64(n))
+	writer.Write(b[:])
 }
 
 func hashBool(writer hash.Hash, b bool) {
